@@ -163,6 +163,12 @@ pub fn family(name: &str) -> Family {
             binary: vec!["then", "or", "delim"],
             alphabet: vec!["a", "b", "(", ")"],
         },
+        "drp" => Family {
+            leaves: vec![j("a"), j("b"), json!(["map", ["any"], "f"]), json!(["to", ["just", ["b"]], "k"]), json!(["sel", ["a"]]), json!(["any"])],
+            unary: vec!["ornot", "map", "rep0", "exact2", "grouparr1", "recovervia", "mw", "rewind"],
+            binary: vec!["then", "or", "grouparr", "grouparr3", "group", "foldl", "foldr", "choicev", "andis"],
+            alphabet: vec!["a", "b"],
+        },
         "nst" => Family {
             leaves: vec![j("a"), j("b"), json!(["any"]), json!(["validate", ["any"], "1", "F"]), json!(["cust", 1, false]), json!(["noneof", ["a"]])],
             unary: vec!["ornot", "rep0", "nested", "nested", "nested", "validateF", "tospan", "map"],
@@ -240,6 +246,8 @@ pub fn gen(r: &mut Rng, f: &Family, budget: usize) -> J {
                 };
                 json!(["nested", gen(r, f, budget - 1), b])
             }
+            "grouparr1" => json!(["grouparr", [gen(r, f, budget - 1)]]),
+            "recovervia" => json!(["recover", gen(r, f, budget - 1), ["via", ["to", ["any"], "r"]]]),
             "label" => json!(["label", gen(r, f, budget - 1), *r.pick(&["L", "M"]), false]),
             "labelctx" => json!(["label", gen(r, f, budget - 1), *r.pick(&["L", "M"]), true]),
             "maperr" => json!(["maperr", gen(r, f, budget - 1), "tag"]),
@@ -273,6 +281,7 @@ pub fn gen(r: &mut Rng, f: &Family, budget: usize) -> J {
             }
             "group" => json!(["group", [gen(r, f, left), gen(r, f, right)]]),
             "grouparr" => json!(["grouparr", [gen(r, f, left), gen(r, f, right)]]),
+            "grouparr3" => json!(["grouparr", [gen(r, f, left), gen(r, f, right), gen(r, f, 2)]]),
             "delim" => json!(["delim", gen(r, f, left), gen(r, f, right.min(2)), gen(r, f, 2)]),
             "foldl" => json!(["foldl", gen(r, f, left), ["rep", non_empty(r, f, right), b.0, b.1], "g"]),
             "foldr" => json!(["foldr", ["rep", non_empty(r, f, left), b.0, b.1], gen(r, f, right), "g"]),
